@@ -42,6 +42,9 @@ ChkF(name, idx, cond, fname, fcond) ==
 ChkF4(name, idx, cond, f1, c1, f2, c2, f3, c3) ==
   cond \/ (PrintT(<<"FAIL", name, idx>>) /\ (c1 => PrintT(<<"FINDING", f1, idx>>)) /\ (c2 => PrintT(<<"FINDING", f2, idx>>))
                /\ (c3 => PrintT(<<"FINDING", f3, idx>>)) /\ FALSE)
+ChkF5(name, idx, cond, f1, c1, f2, c2, f3, c3, f4, c4) ==
+  cond \/ (PrintT(<<"FAIL", name, idx>>) /\ (c1 => PrintT(<<"FINDING", f1, idx>>)) /\ (c2 => PrintT(<<"FINDING", f2, idx>>))
+               /\ (c3 => PrintT(<<"FINDING", f3, idx>>)) /\ (c4 => PrintT(<<"FINDING", f4, idx>>)) /\ FALSE)
 ChkF2(name, idx, cond, f1, c1, f2, c2) ==
   cond \/ (PrintT(<<"FAIL", name, idx>>) /\ (c1 => PrintT(<<"FINDING", f1, idx>>)) /\ (c2 => PrintT(<<"FINDING", f2, idx>>)) /\ FALSE)
 
@@ -264,8 +267,11 @@ NoThreeCollinearCyclic(path) ==
   Len(path) >= 3 => \A i \in 1..Len(path) :
      ~GB!CollinearB(GB!BPt(Prv(path, i)), GB!BPt(path[i]), GB!BPt(Nxt(path, i)))
 
+\* (the call is made on the path multiplied by e.k; e.mapOK: every returned coordinate was a multiple of e.k, as a
+\*  sub-sequence of the input must be; path and results are in base coordinates, all conditions are scale invariant)
 C15OK(e) ==
   LET P == e.path R == e.res IN
+  e.mapOK /\
   IF e.isOpen
   THEN \/ Len(P) < 2 \/ AllEqualPts(P)                       \* no polyline: outside the property
        \/ /\ Len(R) >= 2 /\ R[1] = P[1] /\ R[Len(R)] = P[Len(P)]
@@ -532,43 +538,56 @@ Sliver(path) == Abs(Area2(path)) <= 4 * Perim1(path)
 \* contained in one horizontal or vertical line (the tree builder skips such paths: empty bounds)
 LineDegenerate(path) == (\A i \in 1..Len(path) : path[i][2] = path[1][2]) \/ (\A i \in 1..Len(path) : path[i][1] = path[1][1])
 
-\* flat: the flat result to compare with; waive: do not demand the orientation clause of slivers
-C04Gen(e, flat, waive) ==
+\* a vertex at which the path turns back on itself within the band: one of its neighbours lies within the band of the
+\* edge to the other (a needle / spike left in a result ring)
+NeedleTip(path, i) ==
+  LET a == Prv(path, i) v == path[i] b == Nxt(path, i) IN NearSeg(a, v, b, Band4) \/ NearSeg(b, a, v, Band4)
+
+\* flat: the flat result to compare with; w: what is not demanded (signatures of listed findings), a record
+\*   sliver: orientation and containment of nodes thinner than the band;  needle: containment of needle tips
+NoWaive == [sliver |-> FALSE, needle |-> FALSE]
+C04Gen(e, flat, w) ==
   LET T == e.tree  polys == [k \in 1..Len(e.tree) |-> e.tree[k].poly]
       FarT(p) == FarClosed(p, polys, Band4) IN
   \* the same polygons as the flat result, each exactly once
-  /\ Len(T) = Len(flat)
-  /\ \A k \in 1..Len(T) : CountCyclic(T[k].poly, polys) = CountCyclic(T[k].poly, flat)
+  /\ Dt(<<"tree.count", Len(T), Len(flat)>>, Len(T) = Len(flat))
+  /\ \A k \in 1..Len(T) : Dt(<<"tree.multiset", k>>, CountCyclic(T[k].poly, polys) = CountCyclic(T[k].poly, flat))
   \* structure: depth-first order, levels, IsHole <=> negative orientation <=> even level >= 2
   /\ \A k \in 1..Len(T) :
-       /\ T[k].parent \in 0..(k - 1)
-       /\ T[k].level = (IF T[k].parent = 0 THEN 1 ELSE T[T[k].parent].level + 1)
-       /\ T[k].isHole = (T[k].level % 2 = 0)
-       /\ (waive /\ Sliver(T[k].poly)) \/ T[k].isHole = (Area2(T[k].poly) < 0)
+       /\ Dt(<<"tree.order", k>>, T[k].parent \in 0..(k - 1))
+       /\ Dt(<<"tree.level", k>>, T[k].level = (IF T[k].parent = 0 THEN 1 ELSE T[T[k].parent].level + 1))
+       /\ Dt(<<"tree.ishole-level", k>>, T[k].isHole = (T[k].level % 2 = 0))
+       /\ Dt(<<"tree.ishole-orientation", k>>, (w.sliver /\ Sliver(T[k].poly)) \/ T[k].isHole = (Area2(T[k].poly) < 0))
   \* every node lies inside its parent (vertices within the band; interior probes inside)
   /\ \A k \in 1..Len(T) : T[k].parent # 0 =>
-       \A i \in 1..Len(T[k].poly) : InOrNear(T[T[k].parent].poly, T[k].poly[i])
+       \A i \in 1..Len(T[k].poly) : Dt(<<"tree.vertex-in-parent", k, i>>,
+            \/ InOrNear(T[T[k].parent].poly, T[k].poly[i])
+            \/ (w.sliver /\ Sliver(T[k].poly))
+            \/ (w.needle /\ NeedleTip(T[k].poly, i)))
   /\ \A n \in 1..Len(e.probes) :
        LET p == e.probes[n] IN
        FarT(p) =>
-         /\ \A k \in 1..Len(T) : (T[k].parent # 0 /\ WnPath(p, T[k].poly) # 0) => WnPath(p, T[T[k].parent].poly) # 0
+         /\ \A k \in 1..Len(T) : Dt(<<"tree.probe-in-parent", k, p>>, (T[k].parent # 0 /\ WnPath(p, T[k].poly) # 0) => WnPath(p, T[T[k].parent].poly) # 0)
          \* ... and inside no sibling
-         /\ \A k, m \in 1..Len(T) : (k < m /\ T[k].parent = T[m].parent) => ~(WnPath(p, T[k].poly) # 0 /\ WnPath(p, T[m].poly) # 0)
+         /\ \A k, m \in 1..Len(T) : Dt(<<"tree.sibling", k, m, p>>, (k < m /\ T[k].parent = T[m].parent) => ~(WnPath(p, T[k].poly) # 0 /\ WnPath(p, T[m].poly) # 0))
          \* every hole's parent is the innermost filled boundary containing it
          \* (decided at probes inside the hole but in none of its own children)
-         /\ \A k \in 1..Len(T) :
+         /\ \A k \in 1..Len(T) : Dt(<<"tree.innermost", k, p>>,
               (T[k].isHole /\ WnPath(p, T[k].poly) # 0 /\ \A c \in 1..Len(T) : T[c].parent = k => WnPath(p, T[c].poly) = 0)
-                 => InnermostOuter(T, p) = T[k].parent
+                 => InnermostOuter(T, p) = T[k].parent)
 
-C04OK(e) == C04Gen(e, e.flat, FALSE)
+C04OK(e) == C04Gen(e, e.flat, NoWaive)
 
 \* signature of the listed finding "tree-drops-line-paths": the flat result contains zero-area paths lying in one
 \* horizontal / vertical line which the tree builder skips (empty bounds); everything else is as demanded
 C04SigLinePaths(e) ==
-  LET f == SelectSeq(e.flat, LAMBDA q : ~LineDegenerate(q)) IN Len(f) # Len(e.flat) /\ C04Gen(e, f, FALSE)
+  LET f == SelectSeq(e.flat, LAMBDA q : ~LineDegenerate(q)) IN Len(f) # Len(e.flat) /\ C04Gen(e, f, NoWaive)
 \* signature of the listed finding "tree-sliver-orientation": the only failing clause is the orientation of
 \* polygons thinner than the rounding band (the sweep can emit such slivers with either orientation)
-C04SigSliver(e) == C04Gen(e, e.flat, TRUE)
+C04SigSliver(e) == C04Gen(e, e.flat, [sliver |-> TRUE, needle |-> FALSE])
+\* signature of the listed finding "tree-needle-vertex": the only failing clause is "vertex inside the parent", at
+\* needle tips of a result ring (a spike of zero width that reaches outside the parent)
+C04SigNeedle(e) == C04Gen(e, e.flat, [sliver |-> FALSE, needle |-> TRUE])
 
 \* signature of the listed finding "tree-touching": two different result polygons come within the rounding
 \* band of each other (a vertex of one within 2 units of an edge of the other), which is where the
@@ -578,21 +597,28 @@ TouchingPolys(e) ==
      \E i \in 1..Len(e.tree[k].poly) : ~FarClosedPath(e.tree[k].poly[i], e.tree[m].poly, Band4)
 
 \* ... and every node really lies inside the parent it was given (vertices within the band, interior probes
-\* inside): the finding is about WHICH of several containing polygons becomes the parent (levels, IsHole,
-\* innermost container, siblings), never about a polygon attached to something that does not contain it
-ContainedInParents(e) ==
-  LET T == e.tree  polys == [k \in 1..Len(e.tree) |-> e.tree[k].poly] IN
-  /\ \A k \in 1..Len(T) : T[k].parent # 0 =>
-       \A i \in 1..Len(T[k].poly) : InOrNear(T[T[k].parent].poly, T[k].poly[i])
+\* inside) - the finding is about WHICH of several containing polygons becomes the parent (levels, IsHole,
+\* innermost container, siblings) - or, when it does not, it touches that parent with two cyclically consecutive
+\* vertices (both within the band of the parent's boundary): path1InsidePath2 takes two consecutive vertices that
+\* rounding has pushed inside the neighbour as proof of containment.  A polygon attached to something that neither
+\* contains it nor touches it in that way is never this finding.
+NodeContained(e, k) ==
+  LET T == e.tree  polys == [j \in 1..Len(e.tree) |-> e.tree[j].poly] IN
+  /\ \A i \in 1..Len(T[k].poly) : InOrNear(T[T[k].parent].poly, T[k].poly[i])
   /\ \A n \in 1..Len(e.probes) :
-       FarClosed(e.probes[n], polys, Band4) =>
-         \A k \in 1..Len(T) : (T[k].parent # 0 /\ WnPath(e.probes[n], T[k].poly) # 0) => WnPath(e.probes[n], T[T[k].parent].poly) # 0
+       (FarClosed(e.probes[n], polys, Band4) /\ WnPath(e.probes[n], T[k].poly) # 0) => WnPath(e.probes[n], T[T[k].parent].poly) # 0
+TwoTouch(e, k) ==
+  LET T == e.tree  q == T[k].poly  par == T[T[k].parent].poly IN
+  \E i \in 1..Len(q) : ~FarClosedPath(q[i], par, Band4) /\ ~FarClosedPath(Nxt(q, i), par, Band4)
+ContainedInParents(e) ==
+  \A k \in 1..Len(e.tree) : e.tree[k].parent # 0 => (NodeContained(e, k) \/ TwoTouch(e, k))
 
 TreeOpOK(e, idx) ==
   /\ Chk("OUT", idx, OutOK(e))
   /\ Has(e, "ARGS") => Chk("ARGS", idx, e.argsSame)
-  /\ Has(e, "C04") => ChkF4("C04", idx, C04OK(e), "tree-touching", Len(e.tree) = Len(e.flat) /\ TouchingPolys(e) /\ ContainedInParents(e),
-                                        "tree-drops-line-paths", C04SigLinePaths(e), "tree-sliver-orientation", C04SigSliver(e))
+  /\ Has(e, "C04") => ChkF5("C04", idx, C04OK(e), "tree-touching", Len(e.tree) = Len(e.flat) /\ TouchingPolys(e) /\ ContainedInParents(e),
+                                        "tree-drops-line-paths", C04SigLinePaths(e), "tree-sliver-orientation", C04SigSliver(e),
+                                        "tree-needle-vertex", C04SigNeedle(e))
 
 (***************************************************************************)
 (* Open subject paths (C09).  All coordinates of the observation are in    *)
@@ -748,22 +774,29 @@ InflateRegionOK(e) ==
   IN
   \A n \in 1..Len(e.probes) :
     LET p == e.probes[n] IN
-    /\ CanonicalAt(e.sol, rev, p)
+    /\ Dt(<<"inflate.canonical", p>>, CanonicalAt(e.sol, rev, p))
     /\ IF grow
-       THEN /\ (InSrc(p) /\ FarClosed(p, e.paths, Band4)) => In(e.sol, p)
+       THEN /\ Dt(<<"inflate.source-kept", p>>, (InSrc(p) /\ FarClosed(p, e.paths, Band4)) => In(e.sol, p))
             \* (a valid polygon set of orientation g has its region on the left (g = 1) / right (g = -1) of every edge)
-            /\ InStrips(e, p, ad - tol4, IF polygon THEN (IF rev THEN 1 ELSE -1) ELSE 0) => In(e.sol, p)
-            /\ (e.jt = 3 /\ polygon) => (SureNearSrc(e, p, ad - tol4) => In(e.sol, p))
-            /\ (In(e.sol, p) /\ ~InSrc(p)) => NearSrc(e, p, outer4)
+            /\ Dt(<<"inflate.strip", p>>, InStrips(e, p, ad - tol4, IF polygon THEN (IF rev THEN 1 ELSE -1) ELSE 0) => In(e.sol, p))
+            /\ Dt(<<"inflate.round-near", p>>, (e.jt = 3 /\ polygon) => (SureNearSrc(e, p, ad - tol4) => In(e.sol, p)))
+            /\ Dt(<<"inflate.outer-bound", p>>, (In(e.sol, p) /\ ~InSrc(p)) => NearSrc(e, p, outer4))
        ELSE /\ (~InSrc(p) /\ FarClosed(p, e.paths, Band4)) => ~In(e.sol, p)
             /\ InStrips(e, p, ad - tol4, IF rev THEN -1 ELSE 1) => ~In(e.sol, p)
             /\ e.jt = 3 => (SureNearSrc(e, p, ad - tol4) => ~In(e.sol, p))
             /\ (~In(e.sol, p) /\ InSrc(p)) => NearSrc(e, p, outer4)
     \* open-path specifics (C10)
-    /\ (e.et = 2 /\ In(e.sol, p)) => ButtOK(e, p, outer4, tol4)
-    /\ (e.et \in {3, 4}) =>
-          \A k \in 1..Len(e.paths) : Len(e.paths[k]) >= 1 =>
-             ((SureNearPt(p, e.paths[k][1], ad - tol4) \/ SureNearPt(p, e.paths[k][Len(e.paths[k])], ad - tol4)) => In(e.sol, p))
+    /\ Dt(<<"inflate.butt", p>>, (e.et = 2 /\ In(e.sol, p)) => ButtOK(e, p, outer4, tol4))
+    \* Square and Round ends extend delta BEYOND the end points: the half-disc of radius delta - tol on the far side
+    \* of an end point (in the direction of the last / against the direction of the first segment) is covered.  The
+    \* near side is the business of the strip clause: when the end segment is shorter than delta, a Bevel / Miter /
+    \* Square join at its other end legitimately cuts into the disc behind the end point
+    /\ Dt(<<"inflate.end-cap", p>>, (e.et \in {3, 4}) =>
+          \A k \in 1..Len(e.paths) :
+             LET q == Src(e)[k]  m == Len(q) IN
+             m >= 2 =>
+               /\ (SureNearPt(p, q[m], ad - tol4) /\ Dot(p[1] - q[m][1], p[2] - q[m][2], q[m][1] - q[m - 1][1], q[m][2] - q[m - 1][2]) >= 0) => In(e.sol, p)
+               /\ (SureNearPt(p, q[1], ad - tol4) /\ Dot(p[1] - q[1][1], p[2] - q[1][2], q[1][1] - q[2][1], q[1][2] - q[2][2]) >= 0) => In(e.sol, p))
     \* a single point becomes a square / circle of radius delta
     /\ (~polygon /\ \E k \in 1..Len(e.paths) : Len(Src(e)[k]) = 1 /\ SureNearPt(p, Src(e)[k][1], ad - tol4)) => In(e.sol, p)
 
